@@ -98,8 +98,8 @@ def plan_cfg(plan, k=1, s=0, emit=False, invs=True, defects="MCNoDefects"):
 
 # plans: (name, constants).  The state space of each plan is partitioned exactly by the shards.
 QUICK_PLANS = [
-    ("1req", dict(maxreqs=1, first="MCAll", later="MCTiny", disp="MCDispAll", held=0, cuts="FALSE", ns="{1}")),
-    ("2req", dict(maxreqs=2, first="MCTiny", later="MCTiny", disp="MCDispSmall", held=1, cuts="TRUE",
+    ("1req", dict(maxreqs=1, first="MCAll", later="MCMicro", disp="MCDispAll", held=0, cuts="FALSE", ns="{1}")),
+    ("2req", dict(maxreqs=2, first="MCTiny", later="MCMicro", disp="MCDispMicro", held=1, cuts="TRUE",
                   rets='{"F", "1"}', ns="{1}", routes='{"direct"}')),
 ]
 THOROUGH_PLANS = [
@@ -270,31 +270,36 @@ def _unq(s):
 
 
 def _emit_shard(args):
-    """One emission shard: TLC (1 worker) checks the invariants on its share of the histories and prints each
-    finished history; every printed history is replayed on the real code at once; traces are judged by TLC."""
-    name, plan, k, s = args
+    """One emission shard of one or more plans: TLC (1 worker) checks the invariants on its share of the histories
+    and prints each finished history; every printed history is replayed on the real code at once; the traces are
+    judged by TLC in batches (one Judge for all the plans of the task, so small plans share a validation JVM)."""
+    plans, k, s = args
     _warm()
     j = Judge()
-    emitted = 0
+    per_plan = {}
     garbled = []
+    for name, plan in plans:
+        emitted = 0
 
-    def on_line(ln):
-        nonlocal emitted
-        if not ln.startswith('<<"SC"'):
-            return False
-        m = _SC.match(ln)
-        if not m:
-            garbled.append(ln[:200])
+        def on_line(ln):
+            nonlocal emitted
+            if not ln.startswith('<<"SC"'):
+                return False
+            m = _SC.match(ln)
+            if not m:
+                garbled.append(ln[:200])
+                return True
+            emitted += 1
+            j.add(json.loads(_unq(m.group(1))), True)
             return True
-        emitted += 1
-        j.add(json.loads(_unq(m.group(1))), True)
-        return True
 
-    r = tlc.run("MC_Pool", plan_cfg(plan, k=k, s=s, emit=True), workers=1, on_line=on_line, timeout=6 * 3600,
-                heap="3g", expect_fail=True)
+        r = tlc.run("MC_Pool", plan_cfg(plan, k=k, s=s, emit=True), workers=1, on_line=on_line, timeout=6 * 3600,
+                    heap="3g", expect_fail=True)
+        per_plan[name] = {"emitted": emitted, "violated": r.violated, "error": r.error, "generated": r.generated,
+                          "distinct": r.distinct, "depth": r.depth, "wall": r.wall}
     out = j.result()
-    out.update(name=name, shard=s, emitted=emitted, garbled=garbled, violated=r.violated, error=r.error,
-               generated=r.generated, distinct=r.distinct, depth=r.depth, wall=r.wall)
+    out.update(name="+".join(n for n, _ in plans), shard=s, emitted=sum(v["emitted"] for v in per_plan.values()),
+               garbled=garbled, per_plan=per_plan)
     return out
 
 
@@ -420,6 +425,26 @@ def _random_shard(args):
 
 
 # ------------------------------------------------------------------------------------------ run
+def _cov_task(args):
+    plan, workers = args
+    r = tlc.run("MC_Pool", plan_cfg(plan), workers=workers, heap="3g", coverage=True, expect_fail=True, timeout=7200)
+    return {"kind": "cov", "violated": r.violated, "error": r.error, "coverage": dict(r.coverage), "distinct": r.distinct,
+            "generated": r.generated, "depth": r.depth, "wall": r.wall}
+
+
+def _dev_task(args):
+    const, clause, plan = args
+    rd = tlc.run("MC_Pool", plan_cfg(plan, defects=const), workers=1, heap="3g", expect_fail=True, timeout=3600)
+    return {"kind": "dev", "const": const, "clause": clause, "violated": rd.violated, "error": rd.error}
+
+
+def _task(t):
+    kind, args = t
+    out = {"cov": _cov_task, "dev": _dev_task, "emit": _emit_shard, "rand": _random_shard}[kind](args)
+    out["kind"] = kind
+    return out
+
+
 def _absorb(rep, findings, outs, counters):
     for o in outs:
         for m in o["machinery"][:1]:
@@ -456,7 +481,6 @@ def run(rep):
     plans = QUICK_PLANS if quick else THOROUGH_PLANS
     counters = {"events": 0, "clauses": {}, "known": 0}
     rep.extra["tree_traits"] = detect_traits()
-    rep.extra["monitor_selftest"] = monitor_selftest()
     rep.rule = ("a history is non-trivial when it contains a fault, retry, redirect, non-2xx reply, a server cut or a "
                 "disposal other than read-all (i.e. anything but single clean 200 requests read to the end); "
                 "distinct_nontrivial counts distinct (configuration, steps) keys; every history is executed on the real "
@@ -465,58 +489,79 @@ def run(rep):
                        "CONNECT/TLS routes not exercised", "sockets are in-memory socketpairs; 'closed' means the client "
                        "called close() and the peer saw EOF after the caller dropped its responses and gc.collect()",
                        "TLC 1.8, CPython http.client and vh/net.py are trusted"]
-    # ---- stage 1a: the whole model, all workers, coverage read back (vacuity gate)
+    k = max(1, JOBS)
     covplan = dict(plans[1][1])
-    r = tlc.run("MC_Pool", plan_cfg(covplan), workers=JOBS if JOBS <= 16 else 16, heap="4g", coverage=True,
-                expect_fail=True, timeout=7200)
-    # (its states are counted once, with the sharded run of the same plan below)
-    rep.stage1.append({"run": "MC_Pool unsharded, -coverage 1, " + json.dumps(covplan), "distinct_states": r.distinct,
-                       "states_generated": r.generated, "depth": r.depth, "wall_s": round(r.wall, 2)})
-    if r.violated or r.error:
-        rep.violation("ModelViolatesRules", f"TLC: {r.violated or r.error} on the Model with KnownDefects = {{}}", None)
-    missing = [a for a in ACTIONS if r.coverage.get(a, (0, 0))[1] == 0]
+    devs = DEVIATIONS[:3] if quick else DEVIATIONS
+    nrand, chunks = (1600, 8) if quick else (60000, 48)      # chunking independent of VERIF_JOBS: same seed,
+    per = nrand // chunks                                       # same histories on any machine
+    # One task list, heaviest first, so that the JVMs of stage 1 overlap with emission / replay / validation:
+    #   emit  stage 1 (invariants on the shard's share of the histories) + 2 + 3 + 4 for one shard of one plan
+    #   cov   stage 1a: the unsharded model with -coverage 1 (vacuity gate, independent count of Finish states)
+    #   dev   stage 1b: a named deviation that TLC must refute with the expected clause
+    #   rand  seeded random histories beyond the bound (stages 3 + 4)
+    tasks = [("cov", (covplan, 2 if k > 2 else 1))]
+    if quick:      # small plans: one task per shard runs them all (fewer JVM start-ups)
+        tasks += [("emit", (plans, k, s)) for s in range(k)]
+    else:
+        for name, plan in sorted(plans, key=lambda np: -int(np[1]["maxreqs"])):
+            tasks += [("emit", ([(name, plan)], k, s)) for s in range(k)]
+    tasks += [("dev", d) for d in devs]
+    tasks += [("rand", (rep.seed * 100003 + c, per)) for c in range(chunks)]
+    with mp.Pool(k) as pool:
+        pending = pool.map_async(_task, tasks, chunksize=1)
+        rep.extra["monitor_selftest"] = monitor_selftest()        # meanwhile, in the parent
+        outs = pending.get()
+    # ---- stage 1a: coverage read back (vacuity gate)
+    cov = [o for o in outs if o["kind"] == "cov"][0]
+    rep.stage1.append({"run": "MC_Pool unsharded, -coverage 1, " + json.dumps(covplan), "distinct_states": cov["distinct"],
+                       "states_generated": cov["generated"], "depth": cov["depth"], "wall_s": round(cov["wall"], 2)})
+    if cov["violated"] or cov["error"]:
+        rep.violation("ModelViolatesRules", f"TLC: {cov['violated'] or cov['error']} on the Model with KnownDefects = {{}}", None)
+    missing = [a for a in ACTIONS if cov["coverage"].get(a, (0, 0))[1] == 0]
     if missing:
         raise tlc.MachineryError(f"vacuous model: actions never taken {missing}")
-    rep.extra["action_coverage"] = {a: r.coverage[a][1] for a in ACTIONS}
-    finish_expected = r.coverage["Finish"][0]
+    rep.extra["action_coverage"] = {a: cov["coverage"][a][1] for a in ACTIONS}
+    finish_expected = cov["coverage"]["Finish"][0]
     # ---- stage 1b: named deviations must be caught by the expected clause
-    devs = DEVIATIONS[:3] if quick else DEVIATIONS
     dev_res = {}
-    for const, clause, plan in devs:
-        rd = tlc.run("MC_Pool", plan_cfg(plan, defects=const), workers=min(JOBS, 4), heap="3g", expect_fail=True,
-                     timeout=3600)
-        dev_res[const] = rd.violated
-        if clause not in rd.violated:
-            raise tlc.MachineryError(f"deviation {const} should violate {clause}; TLC reported {rd.violated or rd.error}")
+    for o in outs:
+        if o["kind"] == "dev":
+            dev_res[o["const"]] = o["violated"]
+            if o["clause"] not in o["violated"]:
+                raise tlc.MachineryError(f"deviation {o['const']} should violate {o['clause']}; TLC reported "
+                                         f"{o['violated'] or o['error']}")
+    if len(dev_res) != len(devs):
+        raise tlc.MachineryError("deviation runs missing")
     rep.extra["deviations_caught"] = dev_res
-    # ---- stage 2/3/4: sharded emission, immediate replay, batch trace validation
-    k = max(1, JOBS)
-    with mp.Pool(k) as pool:
-        for name, plan in plans:
-            outs = pool.map(_emit_shard, [(name, plan, k, s) for s in range(k)], chunksize=1)
-            for o in outs:
-                if o["violated"] or o["error"]:
-                    rep.violation("ModelViolatesRules", f"TLC: {o['violated'] or o['error']} in plan {name} shard {o['shard']}", None)
-            emitted = sum(o["emitted"] for o in outs)
-            if emitted == 0:
-                raise tlc.MachineryError(f"plan {name}: nothing emitted")
-            if plan == covplan and emitted != finish_expected:
-                raise tlc.MachineryError(f"plan {name}: {emitted} histories emitted by the shards, the unsharded run "
-                                         f"counted {finish_expected} Finish states")
-            rep.states += sum(o["distinct"] for o in outs)
-            rep.transitions += sum(o["generated"] for o in outs)
-            rep.stage1.append({"run": f"MC_Pool {name} {json.dumps(plan)} ({k} shards, invariants checked)",
-                               "distinct_states": sum(o["distinct"] for o in outs),
-                               "states_generated": sum(o["generated"] for o in outs),
-                               "depth": max(o["depth"] for o in outs), "wall_s": round(max(o["wall"] for o in outs), 1),
-                               "histories_emitted": emitted, "histories_replayed": sum(o["n"] for o in outs)})
-            _absorb(rep, findings, outs, counters)
-        # ---- random histories beyond the bound
-        nrand, chunks = (1600, 16) if quick else (60000, 48)      # chunking independent of VERIF_JOBS: same seed,
-        per = nrand // chunks                                       # same histories on any machine
-        outs = pool.map(_random_shard, [(rep.seed * 100003 + c, per) for c in range(chunks)], chunksize=1)
-        _absorb(rep, findings, outs, counters)
-        rep.extra["random_histories"] = per * chunks
+    # ---- stage 1 (sharded) + 2/3/4 per plan
+    eo = [o for o in outs if o["kind"] == "emit"]
+    for name, plan in plans:
+        po = [o["per_plan"][name] for o in eo if name in o["per_plan"]]
+        if len(po) != k:
+            raise tlc.MachineryError(f"plan {name}: {len(po)} of {k} shards reported")
+        for o in po:
+            if o["violated"] or o["error"]:
+                rep.violation("ModelViolatesRules", f"TLC: {o['violated'] or o['error']} in plan {name}", None)
+        emitted = sum(o["emitted"] for o in po)
+        if emitted == 0:
+            raise tlc.MachineryError(f"plan {name}: nothing emitted")
+        if plan == covplan and emitted != finish_expected:
+            raise tlc.MachineryError(f"plan {name}: {emitted} histories emitted by the shards, the unsharded run "
+                                     f"counted {finish_expected} Finish states")
+        rep.states += sum(o["distinct"] for o in po)
+        rep.transitions += sum(o["generated"] for o in po)
+        rep.stage1.append({"run": f"MC_Pool {name} {json.dumps(plan)} ({k} shards, invariants checked)",
+                           "distinct_states": sum(o["distinct"] for o in po),
+                           "states_generated": sum(o["generated"] for o in po),
+                           "depth": max(o["depth"] for o in po), "wall_s": round(max(o["wall"] for o in po), 1),
+                           "histories_emitted": emitted})
+    _absorb(rep, findings, eo, counters)       # raises unless every emitted history was replayed and judged
+    # ---- random histories beyond the bound
+    ro = [o for o in outs if o["kind"] == "rand"]
+    if len(ro) != chunks:
+        raise tlc.MachineryError("random chunks missing")
+    _absorb(rep, findings, ro, counters)
+    rep.extra["random_histories"] = per * chunks
     rep.extra["trace_events"] = counters["events"]
     rep.extra["verdicts"] = counters["clauses"]
     rep.extra["known_finding_traces"] = counters["known"]
